@@ -22,6 +22,9 @@ Readings (the weaker one where the statement leaves a choice):
   is modelled to do is reported as drift `untokenize_spelling`, never as a violation.  A shortcut that
   returns some inputs unread therefore shows as this drift on the inputs where it is harmless (`2.5`)
   and as a C13_* violation on those where it is not (`nan` with nan a key of the map).
+* a map entry name -> same name is a request like any other (the name stays, the token stays): maps
+  with identity entries alone and mixed with renamings, on names that occur / do not occur, are part of
+  every instance's Maps (Tokens!AllIdentity, HasIdentity).
 * "name" is what the tokenizer calls NAME.  Names that Python's number constructors also accept as
   the text of a number (inf, nan, NaN, Infinity, INF, j) are names; they occur as the whole expression,
   signed, blank-padded, as keys and images of the map and as bystanders (instances MC_Tokens_words*).
@@ -264,12 +267,17 @@ def signature(clause, beh, events):
         m = [(p['from'], p['to']) for p in act['map']]
         keys = set(a for a, _ in m)
         vals = [b for _, b in m]
-        shape = 'empty' if not m else 'swap-or-cycle' if set(vals) == keys and any(a != b for a, b in m) \
-            else 'chain' if keys & set(vals) else 'merge' if len(set(vals)) < len(vals) else 'plain'
+        real = [(a, b) for a, b in m if a != b]      # entries that are not name -> same name
+        rk, rv = set(a for a, _ in real), [b for _, b in real]
+        shape = 'empty' if not m else 'identity' if not real else \
+            'swap-or-cycle' if set(rv) == rk else 'chain' if rk & set(rv) else \
+            'merge' if len(set(vals)) < len(vals) else 'plain'
+        if real and len(real) < len(m):
+            shape += '+identity'
         fn = 'replace_token_from_lookup'
     else:
         m = [(act['target'], act['repl'])]
-        shape = 'one'
+        shape = 'one' if act['target'] != act['repl'] else 'one-identity'
         fn = 'replace_token'
     if not ev.get('ok'):
         # an input that is one physical line / that crosses physical lines (inside brackets, continuation, block)
@@ -277,7 +285,7 @@ def signature(clause, beh, events):
         return '%s:%s:no-expression-returned%s' % (fn, shape, ':multi-line-input' if '\n' in text else '')
     got = ev.get('toks', [])
     if len(got) != len(toks):
-        return '%s:%s:token-count-changed' % (fn, shape)
+        return '%s:%s:token-%s' % (fn, shape, 'dropped' if len(got) < len(toks) else 'added')
     mm = dict(m)
     for t, g in zip(toks, got):
         hit = t['kind'] == 'NAME' and t['text'] in mm
@@ -308,6 +316,15 @@ def word_is_key(beh):
     return act['kind'] == 'RenameOne' and act['target'] in names
 
 
+def identity_hits(beh):
+    """an identity entry (name -> same name) of the map names a name of the expression"""
+    names = set(t['text'] for t in beh['toks'] if t['kind'] == 'NAME')
+    act = beh['acts'][0]
+    if act['kind'] == 'Rename':
+        return any(p['from'] == p['to'] and p['from'] in names for p in act['map'])
+    return act['kind'] == 'RenameOne' and act['target'] == act['repl'] and act['target'] in names
+
+
 def nontrivial(beh):
     """the call has something to do: a name of the map occurs (Rename/RenameOne), a name exists (ListNames)"""
     names = set(t['text'] for t in beh['toks'] if t['kind'] == 'NAME')
@@ -333,6 +350,8 @@ def judge(rep, behs):
         sum(1 for _, evs in traces for ev in evs[1:] if ev.get('vok'))
     rep.extra['multi_line_inputs'] = rep.extra.get('multi_line_inputs', 0) + \
         sum(1 for b in behs for sp in SPACINGS if '\n' in (render(b['toks'], sp) or ''))
+    rep.extra['behaviours_with_identity_entry_hit'] = rep.extra.get('behaviours_with_identity_entry_hit', 0) + \
+        sum(1 for b in behs if identity_hits(b))
     rep.extra['lone_operand_expressions'] = rep.extra.get('lone_operand_expressions', 0) + \
         sum(1 for b in behs if is_lone(b))
     rep.extra['behaviours_with_numeric_word_key'] = rep.extra.get('behaviours_with_numeric_word_key', 0) + \
